@@ -427,42 +427,119 @@ class World:
         return reply
 
     def sweep(self, e):
-        """One pass of the timer part of main_loop (ikesacontroller.py:174-197), verbatim in structure.
-        Returns the list of (kind, ike_sa, datagram)."""
+        """One pass of the timer part of the REAL main_loop (ikesacontroller.py: check retransmissions / reap, start DPD, start rekeys): main_loop is
+        entered with scripted sockets, its first select() returns with nothing readable (the 1 s timeout), the loop body runs its timer section and
+        the second select() ends the visit.  Returns the list of (kind, ike_sa, datagram) in the order the loop transmitted / reaped."""
         ctl = self.ctl[e]
-        out = []
+        sent = []
+
+        class _EndOfVisit(BaseException):
+            pass
+
+        class _Sock:
+            def __init__(s_, kind):
+                s_.kind = kind
+
+            def bind(s_, a):
+                pass
+
+            def setsockopt(s_, *a):
+                pass
+
+            def listen(s_, *a):
+                pass
+
+            def close(s_):
+                pass
+
+            def fileno(s_):
+                return 11
+
+            def sendto(s_, data, dst):
+                sent.append((bytes(data), dst))
+
+        class _SocketModule:
+            def __getattr__(s_, n):
+                return getattr(socket, n)
+
+            def socket(s_, family=None, type_=None, *a):
+                return _Sock('tcp' if type_ == socket.SOCK_STREAM else 'udp')
+        calls = {'n': 0}
+
+        def fake_select(r, w_, x, timeout=None):
+            calls['n'] += 1
+            if calls['n'] > 1:
+                raise _EndOfVisit()
+            return [], [], []
+        before = [(sa, sa.state, sa.retransmissions, bytes(sa.request.to_bytes()) if getattr(sa, 'request', None) is not None else None) for sa in ctl.ike_sas]
+        keep = (ikesacontroller.socket, ikesacontroller.select, xfrm.Xfrm.__dict__.get('get_socket'))
+        ikesacontroller.socket, ikesacontroller.select = _SocketModule(), fake_select
+        xfrm.Xfrm.get_socket = classmethod(lambda cls: _Sock('xfrm'))
+        keep_ctl = getattr(ctl, 'control_socket', None)
 
         def run():
-            for sa in ctl.ike_sas:
-                data = sa.check_retransmission_timer()
-                if data:
-                    out.append(('retransmit', sa, bytes(data)))
-                if sa.state == IkeSa.State.DELETED:
-                    sa.delete_child_sas()
-                    ctl.ike_sas.remove(sa)
-                    out.append(('reaped', sa, None))
-            for sa in ctl.ike_sas:
-                data = sa.check_dead_peer_detection_timer()
-                if data:
-                    out.append(('dpd', sa, bytes(data)))
-            for sa in ctl.ike_sas:
-                data = sa.check_rekey_ike_sa_timer()
-                if data:
-                    out.append(('rekey', sa, bytes(data)))
-        self.guarded(e, 'timers', run)
+            try:
+                ctl.main_loop()
+            except _EndOfVisit:
+                pass
+        try:
+            self.guarded(e, 'timers', run)
+        finally:
+            ikesacontroller.socket, ikesacontroller.select = keep[0], keep[1]
+            if keep[2] is not None:
+                xfrm.Xfrm.get_socket = keep[2]
+            if keep_ctl is not None:
+                ctl.control_socket = keep_ctl
+        # label what the loop did, per IKE_SA in table order (the loop's three passes are per pass in table order, too)
+        out, pending = [], list(sent)
+        passes = {'retransmit': [], 'reaped': [], 'dpd': [], 'rekey': []}
+        for sa, st, retx, reqbytes in before:
+            if sa not in ctl.ike_sas:
+                passes['reaped'].append(sa)
+            elif sa.state == st and sa.retransmissions > retx:
+                passes['retransmit'].append(sa)
+            elif sa.state != st and sa.state == IkeSa.State.DPD_REQ_SENT:
+                passes['dpd'].append(sa)
+            elif sa.state != st:
+                passes['rekey'].append(sa)
+        for sa, st, retx, reqbytes in before:          # first pass of the loop: retransmission or reaping, interleaved per IKE_SA
+            if sa in passes['retransmit']:
+                out.append(('retransmit', sa, pending.pop(0)[0] if pending else None))
+            elif sa in passes['reaped']:
+                out.append(('reaped', sa, None))
+        for kind in ('dpd', 'rekey'):
+            for sa in passes[kind]:
+                out.append((kind, sa, pending.pop(0)[0] if pending else None))
+        for data, dst in pending:                       # anything the labelling cannot explain is reported as such
+            out.append(('unexplained', None, data))
         return out
 
     def timer(self, e, sa, which):
-        """Fire one timer method of one IKE_SA (then mimic the reap of main_loop)."""
-        ctl = self.ctl[e]
-
-        def run():
-            data = getattr(sa, which)()
-            if sa.state == IkeSa.State.DELETED and sa in ctl.ike_sas:
-                sa.delete_child_sas()
-                ctl.ike_sas.remove(sa)
-            return data
-        return self.guarded(e, which, run)
+        """Let one timer of one IKE_SA fire: the caller has made it due; the timer section of the REAL main_loop runs once (sweep) and the datagram it
+        transmitted for this IKE_SA is returned.  Reaping of a closed IKE_SA is the loop's own."""
+        want = {'check_retransmission_timer': ('retransmit', 'reaped'), 'check_dead_peer_detection_timer': ('dpd',), 'check_rekey_ike_sa_timer': ('rekey',)}[which]
+        # only the named timer of this IKE_SA may fire during the visit: every other deadline of this endpoint is held back and put back afterwards
+        # (unless the visit itself has set it anew)
+        keepf = {'check_retransmission_timer': ('retransmit_at',), 'check_dead_peer_detection_timer': ('start_dpd_at',),
+                 'check_rekey_ike_sa_timer': ('rekey_ike_sa_at', 'delete_ike_sa_at')}[which]
+        held = []
+        for x in self.ctl[e].ike_sas:
+            for f in ('retransmit_at', 'start_dpd_at', 'rekey_ike_sa_at', 'delete_ike_sa_at'):
+                val = getattr(x, f, None)
+                if isinstance(val, (int, float)) and not (x is sa and f in keepf):
+                    setattr(x, f, val + 1e12)
+                    held.append((x, f, val))
+        try:
+            out = self.sweep(e)
+        finally:
+            for x, f, val in held:
+                if getattr(x, f, None) == val + 1e12:
+                    setattr(x, f, val)
+        other = [(k, s_) for k, s_, d in out if d is not None and not (s_ is sa and k in want)]
+        if other:
+            raise common.MachineryError(f'timer {which}: the loop also transmitted {[(k, tok(s_.my_spi) if s_ is not None else None) for k, s_ in other]} - '
+                                        'the driver expected a single due timer')
+        return next((d for k, s_, d in out if s_ is sa and d is not None), None)
 
     # ------------------------------------------------------------------ helpers for drivers
     def establish(self, initiator='A', **acq):
